@@ -176,3 +176,209 @@ Proof. exact @group_verdict_gen_spec. Qed.
 
 Print Assumptions C13_regenerated_verdict_equals_model.
 Print Assumptions C13_regenerated_verdict_spec.
+
+(* ------------------------------------------------------------------------------------------------------------
+   Extension (fourth round): the semantic clause for the remaining group-mode detectors, its reading on the reported
+   list and for cleared transactions, and the one-transaction clause (Lemmas/GroupSem3.v) *)
+From Coq Require Import List String NArith ZArith Bool Arith.
+From Tealer Require Import Tables Leaves LeafPrelude Syntax Parse Cfg StackAst Keys Analysis Domains Detect Group Driver Paths Runs Eval Exec ExecLemmas GraphOk GroupLemmas NoMiss NoMiss2 TypeExec GroupSem GroupSem2 GroupSem3.
+
+(* can-close-asset: t is an asset transfer with a non-zero AssetCloseTo in an approved consistent concrete group *)
+Theorem C13_can_close_asset_no_miss_semantic_partial :
+  forall (funcs : list (func * fn_result)) (group : list gtxn) (G : cgroup) (posn : string -> N) (a : string) (t : gtxn),
+       group_base_ok funcs group ->
+       In t group ->
+       a <> "ZERO" ->
+       LeafLemmas.is_marker a = false ->
+       g_has_logic_sig t = true ->
+       consistent_with (addr_side funcs group posn "AssetCloseTo" a) funcs group G posn ->
+       group_kind_ok funcs group posn "Axfer" 4 0 0 ->
+       In (g_type t) ("Any" :: "Unknown" :: "Axfer" :: nil) ->
+       cg_kind G (posn (g_id t)) 4 0 0 ->
+       cg_field G (posn (g_id t)) "AssetCloseTo" = VAddr a ->
+       txn_vulnerable funcs checks_can_close_asset "STATELESS" (Some ("Any" :: "Unknown" :: "Axfer" :: nil)) group t = true.
+Proof. exact @group_assetcloseto_no_miss_partial. Qed.
+
+Theorem C13_is_deletable_no_miss_semantic_partial :
+  forall (funcs : list (func * fn_result)) (group : list gtxn) (G : cgroup) (posn : string -> N) (t : gtxn) (kapp : nat) (ap : N),
+       consistent funcs group G posn ->
+       group_base_ok funcs group ->
+       In t group ->
+       g_application t = Some kapp ->
+       group_kind_ok funcs group posn "ApplDeleteApplication" 6 5 ap ->
+       cg_kind G (posn (g_id t)) 6 5 ap -> txn_vulnerable funcs checks_is_deletable "STATEFULL" None group t = true.
+Proof. exact @group_deletable_no_miss_partial. Qed.
+
+Theorem C13_unprotected_updatable_no_miss_semantic_partial :
+  forall (funcs : list (func * fn_result)) (group : list gtxn) (G : cgroup) (posn : string -> N) (a : string) (t : gtxn) (kapp : nat) (ap : N),
+       consistent_with (addr_side funcs group posn "Sender" a) funcs group G posn ->
+       group_base_ok funcs group ->
+       In t group ->
+       g_application t = Some kapp ->
+       cg_field G (posn (g_id t)) "Sender" = VAddr a ->
+       a <> "ZERO" ->
+       LeafLemmas.is_marker a = false ->
+       group_kind_ok funcs group posn "ApplUpdateApplication" 6 4 ap ->
+       cg_kind G (posn (g_id t)) 6 4 ap -> txn_vulnerable funcs checks_unprotected_updatable "STATEFULL" None group t = true.
+Proof. exact @group_unprotected_updatable_no_miss_partial. Qed.
+
+Theorem C13_unprotected_deletable_no_miss_semantic_partial :
+  forall (funcs : list (func * fn_result)) (group : list gtxn) (G : cgroup) (posn : string -> N) (a : string) (t : gtxn) (kapp : nat) (ap : N),
+       consistent_with (addr_side funcs group posn "Sender" a) funcs group G posn ->
+       group_base_ok funcs group ->
+       In t group ->
+       g_application t = Some kapp ->
+       cg_field G (posn (g_id t)) "Sender" = VAddr a ->
+       a <> "ZERO" ->
+       LeafLemmas.is_marker a = false ->
+       group_kind_ok funcs group posn "ApplDeleteApplication" 6 5 ap ->
+       cg_kind G (posn (g_id t)) 6 5 ap -> txn_vulnerable funcs checks_unprotected_deletable "STATEFULL" None group t = true.
+Proof. exact @group_unprotected_deletable_no_miss_partial. Qed.
+
+(* ONE statement for the eight detectors the driver runs in group mode (Driver.group_checks; (dtype, vt) = the row of the
+   regenerated detector_table; d = the row of GroupSem3.danger_table: kind / address field / fee the detector looks for):
+   an eligible transaction that carries the dangerous value in a consistent concrete group approved by every configured
+   contract is in the reported list.  group_side = the analysis-fragment side conditions (known findings D2, D16, D19) *)
+Theorem C13_every_group_detector_no_miss_semantic_partial :
+  forall (funcs : list (func * fn_result)) (group : list gtxn) (G : cgroup) (posn : string -> N) (t : gtxn) (a : string) (ap : N) (fee : Z),
+       In t group ->
+       forall (name : string) (checks : bctx -> bool) (dtype : string) (vt : option (list string)) (d : danger),
+       In (name, checks) group_checks ->
+       assoc name detector_table = Some (dtype, vt) ->
+       assoc name danger_table = Some d ->
+       group_side d funcs group G posn a ap ->
+       eligible dtype vt t -> txn_dangerous d G (posn (g_id t)) a ap fee -> In (g_id t) (group_verdict funcs checks dtype vt group).
+Proof. exact @group_verdict_all_partial. Qed.
+
+(* ... contrapositive: an eligible transaction that is cleared carries the dangerous value in no such group *)
+Theorem C13_every_group_detector_cleared_sound_partial :
+  forall (funcs : list (func * fn_result)) (group : list gtxn) (G : cgroup) (posn : string -> N) (t : gtxn) (a : string) (ap : N) (fee : Z),
+       In t group ->
+       forall (name : string) (checks : bctx -> bool) (dtype : string) (vt : option (list string)) (d : danger),
+       In (name, checks) group_checks ->
+       assoc name detector_table = Some (dtype, vt) ->
+       assoc name danger_table = Some d ->
+       group_side d funcs group G posn a ap ->
+       eligible dtype vt t -> txn_vulnerable funcs checks dtype vt group t = false -> ~ txn_dangerous d G (posn (g_id t)) a ap fee.
+Proof. exact @group_cleared_all_partial. Qed.
+
+(* group-size-check has no group-mode verdict: it is the one detector the driver does not run on group configurations
+   (groupsize.py runs the single-contract path search on every configured contract) *)
+Theorem C13_group_size_check_has_no_group_verdict :
+  assoc "group-size-check" group_checks = None /\
+  map fst group_checks = filter (fun n : string => negb (n =? "group-size-check")%string) (map fst detectors) /\ Datatypes.length group_checks = 8.
+Proof. exact groupsize_not_a_group_check. Qed.
+
+(* LAST SENTENCE OF THE PROPERTY.  One transaction running one contract (as logic-sig or as application), no absolute
+   index configured: reported iff some exit of the contract is unvalidated ... *)
+Theorem C13_single_contract_exits :
+  forall (funcs : list (func * fn_result)) (checks : bctx -> bool) (dtype : string) (vtypes : option (list string))
+         (t : gtxn) (k : nat) (f : func) (r : fn_result),
+       single_contract t k ->
+       nth_error funcs k = Some (f, r) ->
+       relative_accessors (t :: nil) t = nil ->
+       eligible dtype vtypes t ->
+       g_abs t = None ->
+       txn_vulnerable funcs checks dtype vtypes (t :: nil) t = true <->
+       (exists b : nat, fn_leaf_block f b /\ validated_in_block r checks None b = false).
+Proof. exact @single_contract_leaf. Qed.
+
+(* ... every path the single-contract detector (C01/C03: Detect.run_detector) reports makes the group report the
+   transaction, for all nine detector names *)
+Theorem C13_single_contract_path_reported :
+  forall (funcs : list (func * fn_result)) (checks : bctx -> bool) (dtype : string) (vtypes : option (list string))
+         (t : gtxn) (k : nat) (f : func) (r : fn_result),
+       single_contract t k ->
+       nth_error funcs k = Some (f, r) ->
+       relative_accessors (t :: nil) t = nil ->
+       eligible dtype vtypes t ->
+       forall (fuel : nat) (name : string) (ps : list (list nat)) (p : list nat),
+       g_abs t = None -> run_detector f r fuel name checks = Done ps -> In p ps -> txn_vulnerable funcs checks dtype vtypes (t :: nil) t = true.
+Proof. exact @single_group_reports_when_path. Qed.
+
+(* ... the two verdicts are EQUAL exactly when every unvalidated exit is the end of a path of unvalidated blocks *)
+Theorem C13_single_contract_verdict_equal_partial :
+  forall (funcs : list (func * fn_result)) (checks : bctx -> bool) (dtype : string) (vtypes : option (list string))
+         (t : gtxn) (k : nat) (f : func) (r : fn_result),
+       single_contract t k ->
+       nth_error funcs k = Some (f, r) ->
+       relative_accessors (t :: nil) t = nil ->
+       eligible dtype vtypes t ->
+       forall (fuel : nat) (name : string) (ps : list (list nat)),
+       name <> "group-size-check"%string ->
+       g_abs t = None ->
+       leaves_justified f r checks ->
+       run_detector f r fuel name checks = Done ps -> txn_vulnerable funcs checks dtype vtypes (t :: nil) t = true <-> ps <> nil.
+Proof. exact @single_group_eq_contract_partial. Qed.
+
+Theorem C13_single_contract_verdict_equal_exact :
+  forall (funcs : list (func * fn_result)) (checks : bctx -> bool) (dtype : string) (vtypes : option (list string))
+         (t : gtxn) (k : nat) (f : func) (r : fn_result),
+       single_contract t k ->
+       nth_error funcs k = Some (f, r) ->
+       relative_accessors (t :: nil) t = nil ->
+       eligible dtype vtypes t ->
+       forall (fuel : nat) (name : string) (ps : list (list nat)),
+       name <> "group-size-check"%string ->
+       g_abs t = None ->
+       run_detector f r fuel name checks = Done ps ->
+       (txn_vulnerable funcs checks dtype vtypes (t :: nil) t = true <-> ps <> nil) <-> leaves_justified f r checks.
+Proof. exact @single_group_eq_contract_exact. Qed.
+
+(* ... and WITHOUT that condition the sentence is false of the faithful model: a parsed logic-sig analysed by run_all on
+   which can-close-account reports no path while the one-transaction group reports the transaction *)
+Theorem C13_single_contract_verdict_equal_refuted :
+  ~ (forall (funcs : list (func * fn_result)) (checks : bctx -> bool) (dtype : string) (vtypes : option (list string))
+          (t : gtxn) (k : nat) (f : func) (r : fn_result) (fuel : nat) (name : string) (ps : list (list nat)),
+        single_contract t k ->
+        nth_error funcs k = Some (f, r) ->
+        relative_accessors (t :: nil) t = nil ->
+        eligible dtype vtypes t ->
+        name <> "group-size-check"%string ->
+        g_abs t = None ->
+        graph_ok f ->
+        (exists fuelr : nat, run_all f fuelr = Done r) ->
+        In (name, checks) detectors ->
+        run_detector f r fuel name checks = Done ps -> txn_vulnerable funcs checks dtype vtypes (t :: nil) t = true <-> ps <> nil).
+Proof. exact single_group_eq_contract_refuted. Qed.
+
+(* the same transaction configured with an absolute index i *)
+Theorem C13_single_contract_absolute_index :
+  forall (funcs : list (func * fn_result)) (checks : bctx -> bool) (dtype : string) (vtypes : option (list string))
+         (t : gtxn) (k : nat) (f : func) (r : fn_result),
+       single_contract t k ->
+       nth_error funcs k = Some (f, r) ->
+       relative_accessors (t :: nil) t = nil ->
+       eligible dtype vtypes t ->
+       forall i : N,
+       g_abs t = Some i ->
+       txn_vulnerable funcs checks dtype vtypes (t :: nil) t = true <->
+       (exists b : nat, fn_leaf_block f b /\ validated_in_block r checks (Some i) b = false) /\
+       (exists b : nat, fn_leaf_block f b /\ checks (ctx_of r b (KAbs i)) = false).
+Proof. exact @single_group_absolute. Qed.
+
+Print Assumptions C13_can_close_asset_no_miss_semantic_partial.
+Print Assumptions C13_is_deletable_no_miss_semantic_partial.
+Print Assumptions C13_unprotected_updatable_no_miss_semantic_partial.
+Print Assumptions C13_unprotected_deletable_no_miss_semantic_partial.
+Print Assumptions C13_every_group_detector_no_miss_semantic_partial.
+Print Assumptions C13_every_group_detector_cleared_sound_partial.
+Print Assumptions C13_group_size_check_has_no_group_verdict.
+Print Assumptions C13_single_contract_exits.
+Print Assumptions C13_single_contract_path_reported.
+Print Assumptions C13_single_contract_verdict_equal_partial.
+Print Assumptions C13_single_contract_verdict_equal_exact.
+Print Assumptions C13_single_contract_verdict_equal_refuted.
+Print Assumptions C13_single_contract_absolute_index.
+
+(* for a contract without callsub / retsub the side condition of the equality is plain graph reachability: some exit is
+   reachable from the entry through unvalidated blocks whenever some exit is unvalidated *)
+Theorem C13_single_contract_side_condition_is_reachability :
+  forall (f : func) (r : fn_result) (checks : bctx -> bool),
+       subroutine_free f ->
+       leaves_justified f r checks <->
+       ((exists b : nat, fn_leaf_block f b /\ contract_validated r checks b = false) ->
+        exists (b : nat) (blk : block), UReach f (contract_validated r checks) b /\ fblock f b = Some blk /\ leaf_global f blk = true).
+Proof. exact leaves_justified_subroutine_free. Qed.
+
+Print Assumptions C13_single_contract_side_condition_is_reachability.
